@@ -192,15 +192,19 @@ pub fn run_part<S: System>(ctx: &Ctx, rep: &mut Report, part: &Part<S>) -> Vec<(
     let mut total = BfsOut::default();
     let mut per_cfg = vec![];
     let mut outs = vec![];
-    for cfg in &part.cfgs {
+    for (ci, cfg) in part.cfgs.iter().enumerate() {
         let alphabet = (part.alphabet)(cfg);
         let mut b = Bfs::new(part.sys, *cfg, &alphabet, part.depth, &ctx.id);
         if let Ok(n) = std::env::var("AVTMC_MAXV") {
             b.max_violations = n.parse().unwrap_or(5);
         }
+        // every configuration gets an equal share of what is left of the part's budget
+        let now = Instant::now();
+        let left = deadline.saturating_duration_since(now);
+        let share = left / (part.cfgs.len() - ci) as u32;
         b.caps = Caps {
-            deadline: Some(deadline),
-            max_states: 40_000_000,
+            deadline: Some(now + share),
+            max_states: 60_000_000,
         };
         let o = b.run();
         // violations: confirm by identical re-execution, then emit
